@@ -18,6 +18,9 @@ def runFaults (args : List String) : Res :=
     -- C08 `file_frames_contiguous`: the write lock is held for the whole streamed message, so a data writer that
     -- arrives while WriteFile reads its source cannot put its frame between the fragments
     { out := "contiguous", tags := "file-gap" }
+  | ["stall-readloop"] =>
+    -- the read loop's teardown takes the write lock only by TryLock: it returns whatever a stalled writer does
+    { out := "readloop-returned", tags := "stall-readloop" }
   | ["stall-close"] => { out := "close-completed", tags := "stall-close" }
   | _ => bad "faults-args"
 
